@@ -604,6 +604,22 @@ fn vrec(v: Version) -> (Id, Id, u64, usize) {
 /// Take the projection. `None` = the client does not exist; an existing client with nil latest,
 /// no snapshot and no versions is `Some(empty)` (see `identify_empty`).
 pub fn project(raw: &Arc<dyn Storage>, clients: &[Id], ids: &[Id]) -> anyhow::Result<Projection> {
+    // The storage under test can itself panic on a plain read (an in-memory store whose mutex was
+    // poisoned by a panicking request): that is "state unreadable", not a harness crash.
+    match std::panic::catch_unwind(std::panic::AssertUnwindSafe(|| project_inner(raw, clients, ids))) {
+        Ok(r) => r,
+        Err(p) => {
+            let msg = p
+                .downcast_ref::<String>()
+                .cloned()
+                .or_else(|| p.downcast_ref::<&str>().map(|s| s.to_string()))
+                .unwrap_or_else(|| "panic".into());
+            Err(anyhow::anyhow!("storage panicked while being read: {msg}"))
+        }
+    }
+}
+
+fn project_inner(raw: &Arc<dyn Storage>, clients: &[Id], ids: &[Id]) -> anyhow::Result<Projection> {
     let mut out = Projection::new();
     for c in clients {
         let mut t = raw.txn(*c)?;
